@@ -193,7 +193,7 @@ def run_oracle(ctx):
     from skfem.utils import adaptive_theta
     rng = np_seed(ctx, 13)
     # (a) ALL marked subsets of small meshes
-    plan = {'line': (ctx.n(4, 8), ctx.n(5, 8)), 'tri': (ctx.n(8, 16), ctx.n(7, 10)), 'tet': (ctx.n(5, 10), ctx.n(5, 6))}
+    plan = {'line': (ctx.n(5, 8), ctx.n(6, 8)), 'tri': (ctx.n(12, 16), ctx.n(8, 10)), 'tet': (ctx.n(8, 12), ctx.n(5, 6))}
     exh = {}
     for kind, (nmesh, ntmax) in plan.items():
         for _ in range(nmesh):
@@ -210,7 +210,7 @@ def run_oracle(ctx):
             exh.setdefault(kind, []).append({'cells': nt, 'subsets': 2 ** nt})
     ctx.extra['exhaustive_marked_subsets'] = exh
     # (b) mixed sequences of 3-6 adaptive / uniform steps
-    nseq = ctx.n(14, 60)
+    nseq = ctx.n(20, 60)
     for kind in ('line', 'tri', 'tet'):
         for _ in range(nseq if kind != 'tet' else max(3, nseq // 2)):
             g = small_mesh(kind, rng, 8 if kind != 'tet' else 6)
